@@ -42,6 +42,13 @@ def one(item):
     prop, m = item.split("/")
     src = os.path.join(HOME, "seeded_incoming", prop, m)
     wt = f"/tmp/vseed_{prop}_{m}"
+    try:
+        import re
+        mm = re.search(r"/tmp/mut_C[0-9]+", open(os.path.join(src, "demo.py")).read())
+        if mm:      # the demonstration asserts the location of the worktree it was written in
+            wt = mm.group(0)
+    except OSError:
+        pass
     meta = {"property": prop, "mutant": m, "repo_head": sh("git -C /repo log --format=%h -1", "/")[1].strip()}
     sh(f"git -C /repo worktree remove --force {wt}", "/")
     sh(f"git -C /repo worktree add --detach {wt} HEAD -q", "/")
